@@ -15,6 +15,8 @@ from __future__ import annotations
 import asyncio
 import copy
 import gc
+import io
+import json
 from collections.abc import Mapping
 from collections.abc import Sequence
 from typing import Any
@@ -30,6 +32,7 @@ from jpsim import gen_json
 from jpsim import gen_query
 from jpsim.core import Ctx
 from jpsim.core import Violation
+from jpsim.fs import SimFile
 from jpsim.loop import SimBudget
 from jpsim.loop import SimDeadlock
 from jpsim.loop import SimLoop
@@ -68,7 +71,7 @@ ASSUMPTIONS = [
 ]
 PROBES = [
     "wildcard_x_string", "slice_x_string", "filter_x_string", "descendant_x_scalar", "index_x_object",
-    "compound_intersect_async_store", "cancel_landed_in_getter", "error_parity_case", "in_flight_ge_3",
+    "async_text_or_stream_document", "compound_intersect_async_store", "cancel_landed_in_getter", "error_parity_case", "in_flight_ge_3",
 ]
 
 ENTRIES = [
@@ -108,6 +111,8 @@ def generate(seed: int, config: str, tier: str) -> Dict[str, Any]:
                 "d": rng.randrange(len(docs)),
                 "entry": rng.choice(ENTRIES),
                 "stall": rng.random() < 0.3,
+                # mostly the (wrapped) object document; sometimes JSON text or a single-use stream
+                "form": rng.choice(["obj"] * 8 + ["text", "stringio", "bytesio", "simfile"]),
             }
         )
     clients = [c for c in clients if c]
@@ -120,7 +125,7 @@ def generate(seed: int, config: str, tier: str) -> Dict[str, Any]:
                 ss = sites(docs[di], f"d{di}")
                 if ss:
                     p, k = frng.choice(ss)
-                    faults["storeerr"].append([p, k])
+                    faults["storeerr"].append([p, k, frng.choice(["store", "store", "key", "index", "type", "value"])])
         if "cancel" in kinds:
             for _ in range(frng.choice([1, 1, 2, 3])):
                 faults["cancels"].append([frng.randrange(1, 6 + 4 * n_jobs), frng.randrange(len(clients))])
@@ -211,8 +216,8 @@ def execute(spec: Dict[str, Any], ctx: Ctx) -> None:
     plan = spec["plan"]
     knobs = spec.get("knobs", {})
     store = Store(ctx.choose, p_get=float(knobs.get("p_get", 0.4)))
-    for p, k in plan["faults"]["storeerr"]:
-        store.failing[(p, k)] = None
+    for f in plan["faults"]["storeerr"]:
+        store.failing[(f[0], f[1])] = f[2] if len(f) > 2 else "store"
         ctx.count("fault.storeerr.configured")
     docs_w = [wrap(copy.deepcopy(d), store, w["mode"], w["depths"], 0, f"d{i}") for i, (d, w) in enumerate(zip(plan["docs"], plan["wraps"]))]
     fctx = plan["ctx"]
@@ -225,19 +230,32 @@ def execute(spec: Dict[str, Any], ctx: Ctx) -> None:
     kw: Dict[str, Any] = {"filter_context": fctx} if fctx is not None else {}
     strict_prefix = not plan["faults"]["storeerr"]
 
-    def sync_ref(level: str, meth: str, qi: int, di: int) -> _Ref:
+    def data_for(form: str, di: int) -> Any:
+        if form == "obj":
+            return docs_w[di]
+        text = json.dumps(plan["docs"][di])
+        if form == "text":
+            return text
+        if form == "stringio":
+            return io.StringIO(text)
+        if form == "bytesio":
+            return io.BytesIO(text.encode())
+        return SimFile(text.encode(), text=False, name="doc.json", mode="rb", max_read=1 + ctx.seed % 13)
+
+    def sync_ref(level: str, meth: str, qi: int, di: int, form: str = "obj") -> _Ref:
         """The synchronous twin of one async entry point, on the same document objects."""
         before = store.sync_gets
         ms: List[Any] = []
         exc: Optional[str] = None
         name = "findall" if meth == "findall_async" else "finditer"
         try:
+            data = data_for(form, di)
             if level == "module":
-                res = getattr(jsonpath, name)(texts[qi], docs_w[di], **kw)
+                res = getattr(jsonpath, name)(texts[qi], data, **kw)
             elif level == "env":
-                res = getattr(env, name)(texts[qi], docs_w[di], **kw)
+                res = getattr(env, name)(texts[qi], data, **kw)
             else:
-                res = getattr(compiled[qi], name)(docs_w[di], **kw)
+                res = getattr(compiled[qi], name)(data, **kw)
             if name == "findall":
                 ms = [(None, (), core.tj(v)) for v in res]
             else:
@@ -247,11 +265,11 @@ def execute(spec: Dict[str, Any], ctx: Ctx) -> None:
             exc = type(e).__name__
         return _Ref(ms, exc, store.sync_gets - before)
 
-    refs: Dict[Tuple[str, str, int, int], _Ref] = {}
+    refs: Dict[Tuple[str, str, int, int, str], _Ref] = {}
 
-    def rkey(job: Dict[str, Any]) -> Tuple[str, str, int, int]:
+    def rkey(job: Dict[str, Any]) -> Tuple[str, str, int, int, str]:
         level, meth = job["entry"].split(".")
-        return (level, meth, job["q"] % len(texts), job["d"] % len(docs_w))
+        return (level, meth, job["q"] % len(texts), job["d"] % len(docs_w), job.get("form", "obj"))
 
     jobs_flat: List[Tuple[int, int, Dict[str, Any]]] = []
     for ci, jobs in enumerate(plan["clients"]):
@@ -307,21 +325,24 @@ def execute(spec: Dict[str, Any], ctx: Ctx) -> None:
         di = job["d"] % len(docs_w)
         level, meth = job["entry"].split(".")
         ref = refs[rkey(job)]
-        desc = f"{job['entry']}({texts[qi]!r}) on document {di} (wrap {plan['wraps'][di]['mode']})"
+        desc = f"{job['entry']}({texts[qi]!r}) on document {di} ({'wrap ' + plan['wraps'][di]['mode'] if job.get('form', 'obj') == 'obj' else job['form'] + ' form'})"
         ctx.log.add("start", ci, ji, job["entry"], qi, di)
         ctx.switch(ci)
         state["inflight"] += 1
         state["max_inflight"] = max(state["max_inflight"], state["inflight"])
         try:
+            data = data_for(job.get("form", "obj"), di)
+            if job.get("form", "obj") != "obj":
+                ctx.count("probe.async_text_or_stream_document")
             if level == "module":
                 target: Any = jsonpath
-                args: Tuple[Any, ...] = (texts[qi], docs_w[di])
+                args: Tuple[Any, ...] = (texts[qi], data)
             elif level == "env":
                 target = env
-                args = (texts[qi], docs_w[di])
+                args = (texts[qi], data)
             else:
                 target = compiled[qi]
-                args = (docs_w[di],)
+                args = (data,)
             got_ms: List[Any] = []
             got_exc: Optional[str] = None
             if meth == "findall_async":
@@ -458,7 +479,7 @@ def execute(spec: Dict[str, Any], ctx: Ctx) -> None:
         if again.ms != r.ms or again.exc != r.exc:
             raise Violation(
                 "C08.values",
-                f"the synchronous result for {texts[key[2]]!r} on document {key[3]} changed after the async evaluations ran "
+                f"the synchronous result for {texts[key[2]]!r} on document {key[3]} ({key[4]}) changed after the async evaluations ran "
                 f"(was {r.show()}, now {again.show()})",
                 "C08.values:oracle-unstable",
             )
@@ -486,8 +507,8 @@ def shrink_plan(plan: Dict[str, Any]) -> Iterator[Dict[str, Any]]:
                 yield p
     for ci, jobs in enumerate(plan["clients"]):
         for ji, job in enumerate(jobs):
-            for key, simple in (("stall", False), ("entry", "compiled.findall_async")):
-                if job[key] != simple:
+            for key, simple in (("stall", False), ("entry", "compiled.findall_async"), ("form", "obj")):
+                if job.get(key, simple) != simple:
                     p = dict(plan)
                     p["clients"] = [[dict(j) for j in c] for c in plan["clients"]]
                     p["clients"][ci][ji][key] = simple
